@@ -9,6 +9,7 @@ package c19
 import (
 	"context"
 	"encoding/json"
+	"errors"
 	"fmt"
 	"reflect"
 	"sort"
@@ -47,6 +48,15 @@ type entry struct {
 
 var names = []string{"decl/a", "decl/b", "u/one", "u/two", "u/three", "u/four"}
 
+// valueOf: the bytes of version v of name n. In every third history one undeclared secret is EMPTY in all its
+// versions (a feature switched off, a cleared password): an empty value is a value, also in a cache.
+func valueOf(idx int, n string, v uint32) []byte {
+	if idx%3 == 0 && n == "u/three" {
+		return []byte{}
+	}
+	return []byte(fmt.Sprintf("%s#%d", n, v))
+}
+
 func TestC19(t *testing.T) {
 	r := evid.Start("C19", "exploration")
 	defer r.Finish(t)
@@ -59,7 +69,7 @@ func TestC19(t *testing.T) {
 		}
 		runCase(t, r, i)
 	}
-	r.Require("incarnations_without_lookup", "drops_observed", "kept_declared", "kept_fresh", "kept_pinned", "kept_no_expiry_age", "restarts", "polls", "reads", "payloads_checked", "kept_exactly_at_age", "handle_grabbed_during_poll_of_stale_secret", "racing_lookups", "polls_with_not_found", "reads_through_struct_fields", "lookups_during_a_poll_cache_write")
+	r.Require("handles_taken_during_a_failing_updater_build", "incarnations_without_lookup", "drops_observed", "kept_declared", "kept_fresh", "kept_pinned", "kept_no_expiry_age", "restarts", "polls", "reads", "payloads_checked", "kept_exactly_at_age", "handle_grabbed_during_poll_of_stale_secret", "racing_lookups", "polls_with_not_found", "reads_through_struct_fields", "lookups_during_a_poll_cache_write")
 	r.Rule("seeded histories over 2 declarable + 4 undeclared names: a first process started from a crafted cache (last-access stamps incl. 0, stale, fresh, far future), then events {restart from the last payload with a new declared set and expiry age in {0,-1s,1s,1h,30d}; clock jump in {0, age-1s, age, age+1s, 10*age}; read through a handle; obtain a handle without reading; new watcher; lookup; service change; poll}. Distinct = (event kind, expiry-age class, what the poll dropped/kept and why)")
 }
 
@@ -81,7 +91,7 @@ func runCase(t *testing.T, r *evid.Run, idx int) {
 	ver := map[string]uint32{}
 	for _, n := range names {
 		ver[n] = 1
-		svc.Set(n, 1, []byte(n+"#1"))
+		svc.Set(n, 1, valueOf(idx, n, 1))
 	}
 	ages := []time.Duration{0, -time.Second, time.Second, time.Hour, 30 * 24 * time.Hour}
 
@@ -90,7 +100,7 @@ func runCase(t *testing.T, r *evid.Run, idx int) {
 	for _, n := range names[2:] {
 		if rng.IntN(2) == 0 {
 			stamp := []int64{0, now - 100*24*3600, now - 3600, now - 1, now, now + 365*24*3600}[rng.IntN(6)]
-			first[n] = &entry{Secret: &api.SecretValue{Value: []byte(n + "#1"), Version: 1}, LastAccess: strconv.FormatInt(stamp, 10)}
+			first[n] = &entry{Secret: &api.SecretValue{Value: valueOf(idx, n, 1), Version: 1}, LastAccess: strconv.FormatInt(stamp, 10)}
 		}
 	}
 	doc, _ := json.Marshal(first)
@@ -135,7 +145,7 @@ func runCase(t *testing.T, r *evid.Run, idx int) {
 		for _, n := range names { // whatever the service had forgotten is back before the next process starts
 			if _, ok := svc.Active(n); !ok {
 				ver[n]++
-				svc.Set(n, ver[n], []byte(fmt.Sprintf("%s#%d", n, ver[n])))
+				svc.Set(n, ver[n], valueOf(idx, n, ver[n]))
 			}
 		}
 		st, err := setec.NewStore(context.Background(), cfg)
@@ -286,6 +296,21 @@ func runCase(t *testing.T, r *evid.Run, idx int) {
 				handles[pick] = st.Secret(pick)
 				m[pick].pinned = true
 				ev = "handle " + pick
+			case x < 9 && rng.IntN(3) == 0: // an updater whose first build fails; while it was being built a plain handle was taken
+				var h setec.Secret
+				_, uerr := setec.NewUpdater(context.Background(), st, pick, func(b []byte) (string, error) {
+					h = st.Secret(pick)
+					return "", errors.New("this program cannot parse the value")
+				})
+				if uerr == nil || h == nil {
+					fail("updater-fails", fmt.Sprintf("NewUpdater with a failing builder on %q: err=%v handle=%v", pick, uerr, h != nil), nil)
+					st.Close()
+					return
+				}
+				handles[pick] = h
+				m[pick].pinned, m[pick].lastAccess = true, now
+				r.Count("handles_taken_during_a_failing_updater_build", 1)
+				ev = "failed-updater+handle " + pick
 			case x < 9: // watcher
 				if _, err := setec.NewUpdater(context.Background(), st, pick, func(b []byte) (string, error) { return string(b), nil }); err != nil {
 					fail("updater-fails", err.Error(), nil)
@@ -346,7 +371,7 @@ func runCase(t *testing.T, r *evid.Run, idx int) {
 			case x < 13: // service change (forces a cache write at the next poll)
 				delete(gone, pick)
 				ver[pick]++
-				svc.Set(pick, ver[pick], []byte(fmt.Sprintf("%s#%d", pick, ver[pick])))
+				svc.Set(pick, ver[pick], valueOf(idx, pick, ver[pick]))
 				ev = "service-change " + pick
 			default: // poll
 				isPoll = true
@@ -432,7 +457,7 @@ func runCase(t *testing.T, r *evid.Run, idx int) {
 					// slow, and meanwhile another goroutine looks a new name up. Whatever order the two writes
 					// are made in, the cache ends up holding the newcomer (it has a handle).
 					ver[pick]++
-					svc.Set(pick, ver[pick], []byte(fmt.Sprintf("%s#%d", pick, ver[pick])))
+					svc.Set(pick, ver[pick], valueOf(idx, pick, ver[pick]))
 					lookupDone := make(chan error, 1)
 					var started atomic.Bool
 					cache.SetOnWrite(func(int, []byte) {
